@@ -40,6 +40,20 @@
 #include <cfloat>
 #include <algorithm>
 #include <igris/util/printf_impl.h>
+#include <gmpxx.h>
+#include <semaphore>
+#include <thread>
+
+// harness/C13_twin.c: second compilation of printf_impl.c (constants, type widths, print_f itself)
+extern "C"
+{
+    long c13_const(int i);
+    int c13_print_f(void (*h)(void *, int), void *d, long double r, int width, int precision, unsigned int ops,
+                    int base, int with_exp, int is_shortened);
+    // harness/C13_ld.c: third compilation with -DLONG_DOUBLE (DOUBLE = long double)
+    int c13_ld_printf(void (*h)(void *, int), void *d, const char *format, va_list args);
+    long c13_ld_const(int i);
+}
 
 using namespace hv;
 typedef std::vector<uint8_t> bytes;
@@ -64,12 +78,22 @@ struct Sink
 {
     bytes out;
     long calls = 0;
+    // round 3: something that happens inside the callback, right after character number hook_at (0-based)
+    long hook_at = -1;
+    void (*hook)(void *) = 0;
+    void *hook_arg = 0;
+    bool hook_fired = false;
 };
 static void sink_cb(void *d, int c)
 {
     Sink *s = (Sink *)d;
     s->calls++;
     s->out.push_back((uint8_t)c);
+    if (s->hook && s->calls - 1 == s->hook_at)
+    {
+        s->hook_fired = true;
+        s->hook(s->hook_arg);
+    }
 }
 static int shim(Sink *s, const char *fmt, ...)
 {
@@ -445,6 +469,108 @@ static bool shape(const Dir &d, bool neg, const std::string &out)
 }
 } // namespace iso
 
+// ---------------------------------------------------------------- rounding ties (round 3)
+// The property leaves the direction of an exact tie open.  Both sides of the correspondence apply the same
+// canonicalisation to their own text (Lean: IgrisModel/C13/Tie.lean with Rat; here: GMP rationals - exact
+// arithmetic, no floating point, no code of the model): with u = unit of the last digit demanded by the
+// directive (from the exact decimal exponent of x), V = value of the text, the text is in the TIE CLASS iff
+// x / 2^46 <= u / 4 and | |V - x| - u/2 | <= x / 2^46; in the class the result field is "T <lower neighbour as num/den>",
+// outside it the text is compared byte for byte as before.  The oracle judges the real text in both cases.
+namespace tie
+{
+static mpq_class pow10q(long e)
+{
+    mpz_class p;
+    mpz_ui_pow_ui(p.get_mpz_t(), 10, (unsigned long)labs(e));
+    return e >= 0 ? mpq_class(p) : mpq_class(mpz_class(1), p);
+}
+static long ilog10q(const mpq_class &q) // floor(log10 q), q > 0, exact
+{
+    // estimate from the bit lengths (q may be far outside the range of double), then correct by comparison
+    long e = (long)floor(((double)mpz_sizeinbase(q.get_num().get_mpz_t(), 2) - (double)mpz_sizeinbase(q.get_den().get_mpz_t(), 2)) * 0.30102999566);
+    while (pow10q(e) > q) e--;
+    while (pow10q(e + 1) <= q) e++;
+    return e;
+}
+static mpq_class text_value(const std::string &t)
+{
+    mpz_class n = 0, ex = 0;
+    long fd = 0;
+    bool dot = false, in_exp = false, exp_neg = false;
+    for (char c : t)
+    {
+        bool dg = c >= '0' && c <= '9';
+        if (in_exp)
+        {
+            if (c == '-') exp_neg = true;
+            else if (dg) ex = ex * 10 + (c - '0');
+        }
+        else if (dg) { n = n * 10 + (c - '0'); if (dot) fd++; }
+        else if (c == '.') dot = true;
+        else if (c == 'e' || c == 'E') in_exp = true;
+    }
+    long e = ex.fits_slong_p() ? ex.get_si() : 1000000;
+    if (e > 1000000) e = 1000000;
+    return mpq_class(n) * pow10q((exp_neg ? -e : e) - fd);
+}
+// true: `res` = canonical result field
+static bool canon(const Dir &d, double xd, const std::string &body, std::string &res)
+{
+    if (!std::isfinite(xd) || xd == 0) return false;
+    long P = d.has_prec ? d.prec : 6;
+    if (d.has_prec && d.prec > 5000) return false;
+    mpq_class x(fabs(xd));
+    char c = (char)tolower(d.conv);
+    mpq_class u = c == 'f' ? pow10q(-P) : c == 'e' ? pow10q(ilog10q(x) - P) : pow10q(ilog10q(x) - (P == 0 ? 1 : P) + 1);
+    mpq_class v = text_value(body);
+    mpq_class w1 = x / mpq_class(mpz_class(1) << 46), w2 = u / 4;
+    mpq_class dl = abs(abs(v - x) - u / 2);
+    if (!(w1 <= w2 && dl <= w1)) return false;
+    mpq_class lo = v > x ? mpq_class(v - u) : v;
+    lo.canonicalize();
+    res = "T " + lo.get_num().get_str() + "/" + lo.get_den().get_str();
+    return true;
+}
+// the unit of the last digit is fine against the engine's accumulated error (the window above is not used):
+// only there the question "did the engine see a tie" is asked
+static bool fine(const Dir &d, double xd)
+{
+    if (!std::isfinite(xd) || xd == 0) return false;
+    long P = d.has_prec ? d.prec : 6;
+    if (d.has_prec && d.prec > 5000) return false;
+    mpq_class x(fabs(xd));
+    char c = (char)tolower(d.conv);
+    mpq_class u = c == 'f' ? pow10q(-P) : c == 'e' ? pow10q(ilog10q(x) - P) : pow10q(ilog10q(x) - (P == 0 ? 1 : P) + 1);
+    return u / 4 < x / mpq_class(mpz_class(1) << 46);
+}
+// The tie as the engine itself sees it: the scaling steps of print_f (normalisation by ten, fraction digits)
+// run on the host FPU in double, then "is the fractional part of the scaled value exactly 1/2".  Needed where the
+// unit of the last digit is finer than the accumulated error of those steps: there the tie is not a tie of the
+// argument and cannot be recognised from x and the text.  Only decides which result fields are relaxed to "Tf";
+// the oracle below judges the real text in every case.
+static bool seen(const Dir &d, double xd)
+{
+    if (!std::isfinite(xd)) return false;
+    volatile double r = fabs(xd), ip, fp, ep = 0;
+    char c = (char)tolower(d.conv);
+    bool with_exp = c == 'e', is_short = c == 'g';
+    long precision = d.has_prec ? (is_short ? std::max(d.prec, 1L) : d.prec) : 6;
+    double t;
+    fp = modf(r, &t); ip = t;
+    if (with_exp || is_short)
+    {
+        while (ip >= 10) { fp = modf((ip + fp) / 10, &t); ip = t; ep = ep + 1.0; }
+        if (fp != 0.0)
+            while (ip == 0.0) { fp = modf((ip + fp) * 10, &t); ip = t; ep = ep - 1.0; }
+        if (ep < -4 || ep >= precision) with_exp = true;
+    }
+    if (!with_exp) { fp = modf(r, &t); ip = t; }
+    precision -= is_short ? (with_exp ? 1 : (long)ep + 1) : 0;
+    for (long sc = 0; sc < precision && sc < 340 && fmod(fp, 1.0) != 0.0; ++sc) fp = fp * 10;
+    return fmod(fp, 1.0) == 0.5;
+}
+} // namespace tie
+
 // unit of the last digit the directive asks for, given what was printed
 static long double unit_of(const Dir &d, const Shape &S, double x)
 {
@@ -478,6 +604,8 @@ static long double ld_of(unsigned se, uint64_t m)
     memcpy(&v, b, 10);
     return v;
 }
+
+static void judge(const Dir &d, double x, int ret, const Sink &s, const std::string &refs, bool strict, out &o);
 
 static void run_pf(const std::vector<std::string> &w, out &o, bool strict, bool isL = false)
 {
@@ -522,7 +650,19 @@ static void run_pf(const std::vector<std::string> &w, out &o, bool strict, bool 
     else if (star.size() == 1) ret = shim(&s, (const char *)fbuf.p, (int)star[0], x);
     else ret = shim(&s, (const char *)fbuf.p, (int)star[0], (int)star[1], x);
     o.result = std::to_string(ret) + " " + hex(s.out);
+    std::vector<char> ref(8192);
+    int rn;
+    if (star.size() == 0) rn = gshim(ref.data(), ref.size(), fmt.c_str(), x);
+    else if (star.size() == 1) rn = gshim(ref.data(), ref.size(), fmt.c_str(), (int)star[0], x);
+    else rn = gshim(ref.data(), ref.size(), fmt.c_str(), (int)star[0], (int)star[1], x);
+    std::string refs(ref.data(), (size_t)std::min<long>(rn, (long)ref.size() - 1));
+    judge(d, x, ret, s, refs, strict, o);
+}
 
+// tags + oracle of one floating conversion (d = the directive, x = the argument as print_f sees it after the
+// narrowing, refs = the text of the host C library); also replaces o.result by the tie-class form
+static void judge(const Dir &d, double x, int ret, const Sink &s, const std::string &refs, bool strict, out &o)
+{
     // ---- tags
     { char t[8] = {d.conv, 0}; o.tag(t); }
     if (d.minus) o.tag("minus");
@@ -544,12 +684,6 @@ static void run_pf(const std::vector<std::string> &w, out &o, bool strict, bool 
     // ---- oracle
     if (ret != (int)s.calls) o.fail("returned " + std::to_string(ret) + " but emitted " + std::to_string(s.calls));
     std::string outs(s.out.begin(), s.out.end());
-    std::vector<char> ref(8192);
-    int rn;
-    if (star.size() == 0) rn = gshim(ref.data(), ref.size(), fmt.c_str(), x);
-    else if (star.size() == 1) rn = gshim(ref.data(), ref.size(), fmt.c_str(), (int)star[0], x);
-    else rn = gshim(ref.data(), ref.size(), fmt.c_str(), (int)star[0], (int)star[1], x);
-    std::string refs(ref.data(), (size_t)std::min<long>(rn, (long)ref.size() - 1));
     if (outs.size() < d.pre.size() + d.post.size() || outs.compare(0, d.pre.size(), d.pre) != 0 ||
         outs.compare(outs.size() - d.post.size(), d.post.size(), d.post) != 0)
     {
@@ -561,6 +695,11 @@ static void run_pf(const std::vector<std::string> &w, out &o, bool strict, bool 
     {
         if (outs != refs) o.fail("non-finite argument: igris <" + outs + "> ISO/glibc <" + refs + ">");
         return;
+    }
+    {
+        std::string canon;
+        if (tie::canon(d, x, body, canon)) { o.result = canon; o.tag("tie-class"); }
+        else if (tie::fine(d, x) && tie::seen(d, x)) { o.result = "Tf"; o.tag("tie-seen-fine"); }
     }
     Shape S = check_shape(d, body, x);
     if (!S.ok) { o.fail("shape: " + S.why + " igris <" + outs + "> glibc <" + refs + ">"); return; }
@@ -704,6 +843,336 @@ static void run_ar(const std::vector<std::string> &w, out &o)
     double rr = r;
     // all NaNs are one value for the model
     o.result = std::isnan(rr) ? "nan" : hexn(bits_of(rr), 16);
+}
+
+
+// ---------------------------------------------------------------- round 3: result field of a floating piece
+// "<ret> <hex>" or the tie-class form (see namespace tie); `star` as in pf
+static std::string float_field(const std::string &fmt, const std::vector<long> &star, double x, int ret, const bytes &out)
+{
+    std::string raw = std::to_string(ret) + " " + hex(out);
+    Dir d = parse_dir(fmt, star);
+    if (!d.ok || !std::isfinite(x)) return raw;
+    std::string outs(out.begin(), out.end());
+    if (outs.size() < d.pre.size() + d.post.size()) return raw;
+    std::string body = outs.substr(d.pre.size(), outs.size() - d.pre.size() - d.post.size());
+    std::string c;
+    if (tie::canon(d, x, body, c)) return c;
+    if (tie::fine(d, x) && tie::seen(d, x)) return "Tf";
+    return raw;
+}
+
+// ---------------------------------------------------------------- round 3: re-entrancy (pfn)
+// pfn <cb|th> <k> <kindA> <fmtA-hex> <argA> <kindB> <fmtB-hex> <argB>
+//   kind d: a floating directive, arg = 16 hex digits of the double;  kind i: an integer / string directive of
+//   the same engine (property C06 owns print_i / print_s), arg = i:<int> | l:<long> | s:<hex of the string>
+//   cb: the printchar callback of conversion A, right after A's character number k (0-based), runs conversion B
+//       through the same engine into a second sink and returns; A then continues
+//   th: two threads; A's callback stops after character k until thread B has done its whole conversion
+//   result: "<field A> | <field B>", "-" for B when A has no character number k (B is then not part of the result)
+//   oracle: both texts and both return values are what the two conversions give when they run one after the other
+struct Piece
+{
+    char kind = 0;
+    std::string fmt;
+    double x = 0;
+    char ik = 0;
+    long iv = 0;
+    std::string sv;
+    bool ok = false;
+};
+static Piece parse_piece(const std::string &kind, const std::string &f, const std::string &a)
+{
+    Piece p;
+    bytes fb = unhex(f);
+    p.fmt.assign(fb.begin(), fb.end());
+    if (kind == "d") { p.kind = 'd'; p.x = of_bits(strtoull(a.c_str(), 0, 16)); p.ok = true; }
+    else if (kind == "i" && a.size() >= 2 && a[1] == ':')
+    {
+        p.kind = 'i';
+        p.ik = a[0];
+        if (p.ik == 's') { bytes sb = unhex(a.substr(2)); p.sv.assign(sb.begin(), sb.end()); p.ok = true; }
+        else if (p.ik == 'i' || p.ik == 'l') { p.iv = strtol(a.c_str() + 2, 0, 10); p.ok = true; }
+    }
+    return p;
+}
+static int call_piece(const Piece &p, Sink *s)
+{
+    if (p.kind == 'd') return shim(s, p.fmt.c_str(), p.x);
+    if (p.ik == 's') return shim(s, p.fmt.c_str(), p.sv.c_str());
+    if (p.ik == 'l') return shim(s, p.fmt.c_str(), (long)p.iv);
+    return shim(s, p.fmt.c_str(), (int)p.iv);
+}
+static std::string piece_field(const Piece &p, int ret, const bytes &out)
+{
+    if (p.kind == 'd') return float_field(p.fmt, {}, p.x, ret, out);
+    return std::to_string(ret) + " " + hex(out);
+}
+struct NestCtx
+{
+    const Piece *B;
+    Sink *sb;
+    int rb = -1;
+};
+static void nest_hook(void *a)
+{
+    NestCtx *c = (NestCtx *)a;
+    c->rb = call_piece(*c->B, c->sb);
+}
+struct ThCtx
+{
+    std::binary_semaphore a_started{0}, b_done{0};
+};
+static void th_hook(void *a)
+{
+    ThCtx *c = (ThCtx *)a;
+    c->a_started.release();
+    c->b_done.acquire();
+}
+static void run_pfn(const std::vector<std::string> &w, out &o)
+{
+    if (w.size() < 9) { o.result = "bad-op"; o.fail("bad op"); return; }
+    bool th = w[1] == "th";
+    long k = strtol(w[2].c_str(), 0, 10);
+    Piece A = parse_piece(w[3], w[4], w[5]), B = parse_piece(w[6], w[7], w[8]);
+    if (!A.ok || !B.ok || k < 0) { o.result = "bad-op"; o.fail("bad op"); return; }
+    Sink sa, sb;
+    int ra = -1, rb = -1;
+    sa.hook_at = k;
+    if (!th)
+    {
+        NestCtx c;
+        c.B = &B;
+        c.sb = &sb;
+        sa.hook = nest_hook;
+        sa.hook_arg = &c;
+        ra = call_piece(A, &sa);
+        rb = c.rb;
+        o.tag("nested-cb");
+    }
+    else
+    {
+        ThCtx c;
+        sa.hook = th_hook;
+        sa.hook_arg = &c;
+        std::thread tb([&] { c.a_started.acquire(); rb = call_piece(B, &sb); c.b_done.release(); });
+        std::thread ta([&] { ra = call_piece(A, &sa); if (!sa.hook_fired) c.a_started.release(); });
+        ta.join();
+        tb.join();
+        o.tag("nested-threads");
+    }
+    bool ran = sa.hook_fired;
+    o.tag(A.kind == 'd' ? (B.kind == 'd' ? "float-in-float" : "int-in-float") : (B.kind == 'd' ? "float-in-int" : "int-in-int"));
+    o.tag(ran ? "inner-ran" : "inner-not-reached");
+    o.result = piece_field(A, ra, sa.out) + " | " + (ran ? piece_field(B, rb, sb.out) : std::string("-"));
+    // oracle: the two conversions one after the other
+    Sink a0, b0;
+    int ra0 = call_piece(A, &a0), rb0 = call_piece(B, &b0);
+    auto str = [](const bytes &b) { return std::string(b.begin(), b.end()); };
+    if (ra != (int)sa.calls) o.fail("outer: returned " + std::to_string(ra) + " but emitted " + std::to_string(sa.calls));
+    if (ra != ra0 || sa.out != a0.out)
+        o.fail("not re-entrant: the outer conversion gives <" + str(sa.out) + "> (ret " + std::to_string(ra) + ") with a conversion nested at character " +
+               std::to_string(k) + ", <" + str(a0.out) + "> (ret " + std::to_string(ra0) + ") alone");
+    if (ran && (rb != rb0 || sb.out != b0.out))
+        o.fail("not re-entrant: the nested conversion gives <" + str(sb.out) + "> (ret " + std::to_string(rb) + "), <" + str(b0.out) + "> (ret " + std::to_string(rb0) + ") alone");
+    if (ran && rb != (int)sb.calls) o.fail("inner: returned " + std::to_string(rb) + " but emitted " + std::to_string(sb.calls));
+}
+
+// ---------------------------------------------------------------- round 3: calls before main() (pm)
+// an object with init_priority(101) formats a few doubles from its constructor - before main(), before the
+// dynamic initialisers of this translation unit and of libstdc++'s iostreams - into plain static storage;
+// the op `pm <i> <fmt-hex> <bits>` reports entry i (static-initialisation-order dependencies of the engine)
+struct PmEntry { const char *fmt; uint64_t bits; };
+static const PmEntry PM[] = {
+    {"%f", 0x4045200000000000ull},      // 42.25
+    {"%e", 0x44dfe154f457ea13ull},      // 6.02214076e23
+    {"%g", 0x3f202e85be180b74ull},      // 0.0001234
+    {"%10.3F", 0xc00921fb54442d18ull},  // -pi
+    {"%+.0e", 0x4004000000000000ull},   // 2.5 (tie)
+    {"%G", 0x7ff0000000000000ull},      // inf
+    {"%-8f|", 0xfff8000000000000ull},   // -nan
+    {"%.17g", 0x3fb999999999999aull},   // 0.1
+    {"%.20f", 0x0000000000000001ull},   // 5e-324
+    {"%e", 0x7fefffffffffffffull},      // DBL_MAX
+};
+static const int PM_N = (int)(sizeof PM / sizeof PM[0]);
+struct PmSink { unsigned char text[512]; int n; };
+static void pm_cb(void *d, int c)
+{
+    PmSink *s = (PmSink *)d;
+    if (s->n < (int)sizeof s->text) s->text[s->n] = (unsigned char)c;
+    s->n++;
+}
+static int pm_shim(PmSink *s, const char *fmt, ...)
+{
+    va_list ap;
+    va_start(ap, fmt);
+    int r = __printf(pm_cb, s, fmt, ap);
+    va_end(ap);
+    return r;
+}
+struct PreMain
+{
+    PmSink sink[16];
+    int ret[16];
+    int done;
+    PreMain()
+    {
+        done = 0;
+        for (int i = 0; i < PM_N; i++)
+        {
+            sink[i].n = 0;
+            double x;
+            memcpy(&x, &PM[i].bits, 8);
+            ret[i] = pm_shim(&sink[i], PM[i].fmt, x);
+            done++;
+        }
+    }
+};
+static PreMain g_premain __attribute__((init_priority(101)));
+static void run_pm(const std::vector<std::string> &w, out &o)
+{
+    if (w.size() < 4) { o.result = "bad-op"; o.fail("bad op"); return; }
+    long i = strtol(w[1].c_str(), 0, 10);
+    bytes fb = unhex(w[2]);
+    std::string fmt(fb.begin(), fb.end());
+    uint64_t bits = strtoull(w[3].c_str(), 0, 16);
+    if (i < 0 || i >= PM_N || fmt != PM[i].fmt || bits != PM[i].bits) { o.result = "bad-op"; o.fail("pm: entry does not match the table"); return; }
+    o.tag("pre-main");
+    if (g_premain.done != PM_N) { o.result = "pre-main-missing"; o.fail("the pre-main constructor did not run"); return; }
+    const PmSink &ps = g_premain.sink[i];
+    bytes txt(ps.text, ps.text + std::min<int>(ps.n, (int)sizeof ps.text));
+    double x = of_bits(bits);
+    o.result = float_field(fmt, {}, x, g_premain.ret[i], txt);
+    if (g_premain.ret[i] != ps.n) o.fail("pre-main: returned " + std::to_string(g_premain.ret[i]) + " but emitted " + std::to_string(ps.n));
+    Sink s;
+    int r = shim(&s, fmt.c_str(), x);
+    if (r != g_premain.ret[i] || s.out != txt)
+        o.fail("the call before main() gave <" + std::string(txt.begin(), txt.end()) + ">, the same call now gives <" + std::string(s.out.begin(), s.out.end()) + ">");
+}
+
+// ---------------------------------------------------------------- round 3: constants of the compiled code (consts)
+static void run_consts(out &o)
+{
+    char b[512];
+    // PRINT_F_BUFF_SZ itself is not part of the compared result: the property does not fix the capacity, only that
+    // nothing is stored outside it - what is compared (and judged below) is the relation print_f_safe_cfg needs;
+    // the absolute size is a tag.  FRAC_MAX / EXP_MAX are observable (digits beyond them are zeros) and compared.
+    long fits = std::max(c13_const(2), 1L) + c13_const(1) + 7 <= c13_const(0);
+    snprintf(b, sizeof b, "buff_fits=%ld FRAC_MAX=%ld EXP_MAX=%ld PREC_DEFAULT=%ld sizeof_DOUBLE=%ld sizeof_int=%ld ops=%ld,%ld,%ld,%ld,%ld,%ld,%ld,%ld sizeof_long_double=%ld",
+             fits, c13_const(1), c13_const(2), c13_const(3), c13_const(4), c13_const(5), c13_const(6), c13_const(7), c13_const(8),
+             c13_const(9), c13_const(10), c13_const(11), c13_const(12), c13_const(13), c13_const(14));
+    o.tag(("BUFF_SZ=" + std::to_string(c13_const(0))).c_str());
+    o.result = b;
+    o.tag("consts");
+    // the relation print_f_safe_cfg needs of the constants (Cfg.Fits)
+    if (std::max(c13_const(2), 1L) + c13_const(1) + 7 > c13_const(0)) o.fail("PRINT_F_BUFF_SZ is smaller than max(EXP_MAX,1) + FRAC_MAX + 7");
+}
+
+// ---------------------------------------------------------------- round 3: print_f called directly (pfd)
+// pfd <bits> <width> <precision> <ops-hex> <with_exp> <is_shortened>: widths, precisions and flag words beyond
+// what a format string of the generator spells (precision up to 400 000: a 400 KB text; every flag on inf/nan)
+static void run_pfd(const std::vector<std::string> &w, out &o)
+{
+    if (w.size() < 7) { o.result = "bad-op"; o.fail("bad op"); return; }
+    double x = of_bits(strtoull(w[1].c_str(), 0, 16));
+    long width = strtol(w[2].c_str(), 0, 10), precision = strtol(w[3].c_str(), 0, 10);
+    unsigned ops = (unsigned)strtoul(w[4].c_str(), 0, 16);
+    int we = atoi(w[5].c_str()), sh = atoi(w[6].c_str());
+    if (width < 0 || precision < 0 || width > 5000 /* the shape predicate is quadratic in the padding */ || precision > 2000000 || (we && sh)) { o.result = "bad-op"; o.fail("bad op"); return; }
+    Dir d;
+    d.ok = true;
+    d.minus = ops & 1; d.plus = ops & 2; d.space = ops & 4; d.hash = ops & 8; d.zero = ops & 16;
+    d.has_prec = ops & 32;
+    d.prec = d.has_prec ? precision : 0;
+    d.width = width;
+    d.conv = sh ? 'g' : we ? 'e' : 'f';
+    if (ops & 0x4000) d.conv = (char)toupper(d.conv);
+    Sink s;
+    int ret = c13_print_f(sink_cb, &s, (long double)x, (int)width, (int)precision, ops, 10, we, sh);
+    o.result = std::to_string(ret) + " " + hex(s.out);
+    o.tag("direct");
+    if (precision >= 300000 || width >= 300000) o.tag("long-300k");
+    // reference text of the host library for the same directive
+    std::string f = "%";
+    if (d.minus) f += '-';
+    if (d.plus) f += '+';
+    if (d.space) f += ' ';
+    if (d.hash) f += '#';
+    if (d.zero) f += '0';
+    if (width) f += std::to_string(width);
+    if (d.has_prec) f += "." + std::to_string(precision);
+    f += d.conv;
+    std::vector<char> ref((size_t)(width + precision + 8192));
+    int rn = snprintf(ref.data(), ref.size(), f.c_str(), x);
+    std::string refs(ref.data(), (size_t)std::min<long>(rn, (long)ref.size() - 1));
+    judge(d, x, ret, s, refs, false, o);
+}
+
+
+// ---------------------------------------------------------------- round 3: the LONG_DOUBLE flavour (pfx)
+// pfx <fmt-hex> <se> <mant>: an `L` directive through the build of printf_impl.c with LONG_DOUBLE defined (the
+// engine then computes in long double: modfl fmodl powl).  NOT modelled (the model's arithmetic is binary64): the
+// result field is the constant "ld" on both sides; the ORACLE judges the real code: returned value = number of
+// callbacks, ASan on the 352-byte buffer, inf/nan text = glibc, finite: strtold(text) within half a unit of the
+// last printed digit + (16 + |decimal exponent| + digits) ulps of the 64-bit significand.
+static int ld_shim(Sink *s, const char *fmt, ...)
+{
+    va_list ap;
+    va_start(ap, fmt);
+    int r = c13_ld_printf(sink_cb, s, fmt, ap);
+    va_end(ap);
+    return r;
+}
+static void run_pfx(const std::vector<std::string> &w, out &o)
+{
+    if (w.size() < 4) { o.result = "bad-op"; o.fail("bad op"); return; }
+    bytes fb = unhex(w[1]);
+    std::string fmt(fb.begin(), fb.end());
+    long double v = ld_of((unsigned)strtoul(w[2].c_str(), 0, 16), strtoull(w[3].c_str(), 0, 16));
+    Dir d = parse_dir(fmt, {});
+    if (!d.ok || fmt.find('L') == std::string::npos) { o.result = "bad-op"; o.fail("bad op"); return; }
+    Sink s;
+    int ret = ld_shim(&s, fmt.c_str(), v);
+    o.result = "ld";
+    o.tag("long-double-flavour");
+    if (c13_ld_const(4) != (long)sizeof(long double)) o.fail("the LONG_DOUBLE build does not compute in long double");
+    if (ret != (int)s.calls) o.fail("returned " + std::to_string(ret) + " but emitted " + std::to_string(s.calls));
+    std::string outs(s.out.begin(), s.out.end());
+    std::vector<char> ref(16384);
+    int rn = snprintf(ref.data(), ref.size(), fmt.c_str(), v);
+    std::string refs(ref.data(), (size_t)std::min<long>(rn, (long)ref.size() - 1));
+    if (!std::isfinite(v))
+    {
+        if (outs != refs) o.fail("non-finite argument: igris <" + outs + "> ISO/glibc <" + refs + ">");
+        return;
+    }
+    if (outs.size() < d.pre.size() + d.post.size()) { o.fail("literal text lost"); return; }
+    std::string body = outs.substr(d.pre.size(), outs.size() - d.pre.size() - d.post.size());
+    // value and unit of the printed text (exact)
+    mpq_class tv = tie::text_value(body);
+    size_t epos = body.find_first_of("eE");
+    std::string mant = body.substr(0, epos);
+    long fd = 0;
+    { size_t dot = mant.find('.'); if (dot != std::string::npos) for (size_t i = dot + 1; i < mant.size() && isdigit((unsigned char)mant[i]); i++) fd++; }
+    long ex = epos == std::string::npos ? 0 : strtol(body.c_str() + epos + 1, 0, 10);
+    mpq_class unit = tie::pow10q(ex - fd);
+    // the argument, exactly
+    int e2;
+    long double fr = frexpl(fabsl(v), &e2);
+    mpz_class m64((unsigned long)ldexpl(fr, 64));
+    mpq_class x(m64);
+    if (e2 - 64 >= 0) x *= mpq_class(mpz_class(1) << (unsigned long)(e2 - 64)); else x /= mpq_class(mpz_class(1) << (unsigned long)(64 - e2));
+    mpq_class ulp = v == 0 ? mpq_class(0) : mpq_class(x / mpq_class(mpz_class(1) << 63));
+    long X = v == 0 ? 0 : tie::ilog10q(x);
+    long P = d.has_prec ? d.prec : 6;
+    mpq_class err = abs(tv - x);
+    if (err > unit / 2 + (16 + labs(X) + P) * ulp)
+    {
+        mpq_class q = err / unit;
+        o.fail("LONG_DOUBLE build: the text is about 1e" + std::to_string(tie::ilog10q(q)) + " units of its last digit away from the argument: igris <" + outs.substr(0, 80) + "> glibc <" + refs.substr(0, 80) + ">");
+    }
+    else if (outs == refs) o.tag("eq-glibc");
 }
 
 // ---------------------------------------------------------------- generator
@@ -1014,6 +1483,128 @@ static void gen(rng &R, const std::string &tier)
         puts("sh 25232e3067 0 332e");                      // %#.0g 3.
         puts("shm 2567 0 31303030303030");                 // %g 1000000 (finding C13-g-style-carry: rejected)
     }
+
+    // ---- round 3: constants of the compiled code, calls before main(), re-entrancy, direct calls of print_f
+    puts("consts");
+    for (int i = 0; i < PM_N; i++) printf("pm %d %s %s\n", i, hex(std::string(PM[i].fmt)).c_str(), hexn(PM[i].bits, 16).c_str());
+    {
+        struct FP { const char *f; double v; };
+        static const FP fl[] = {{"%.3f", 1234.567}, {"%.3f", 9876.543}, {"%e", 6.02214076e23}, {"%e", 1.602176634e-19}, {"%g", 0.0001234},
+                                {"%12.4f", -0.5}, {"%+.2e", 12345.678}, {"%.10f", 3.0 / 7.0}, {"%08.3f", -2.5}, {"%g", 299792458.0},
+                                {"%f", INFINITY}, {"%E", -NAN}, {"%.17g", 0.1}, {"%f", 1e22}, {"%.0f", 0.5}, {"%G", 1e-300}, {"%#.0e", 7.0}};
+        struct IP { const char *f; const char *a; };
+        static const IP il[] = {{"%d", "i:-12345"}, {"%08x", "i:48879"}, {"%ld", "l:-9223372036854775807"}, {"%s", "s:68656c6c6f"}, {"%6s|", "s:6869"},
+                                {"%o", "i:511"}, {"%+5d", "i:42"}, {"%-7u|", "i:7"}, {"%.3s", "s:616263646566"}, {"%#X", "i:255"}};
+        long pairs = thorough ? 600 : 60;
+        long cnt = 0;
+        auto piece = [&](bool isf, std::string &kind, std::string &f, std::string &a, long &len) {
+            char b[1024];
+            if (isf)
+            {
+                double v;
+                std::string fs;
+                for (;;)
+                {
+                    if (R.chance(50)) { const FP &q = fl[R.below(sizeof fl / sizeof fl[0])]; fs = q.f; v = q.v; }
+                    else
+                    {
+                        std::vector<long> st;
+                        fs = G.directive(st, CONVS[R.below(6)], R.chance(50) ? 0 : (int)R.below(32), R.chance(60) ? 0 : (int)R.below(5), (int)R.range(-2, 17));
+                        if (!st.empty()) continue;
+                        v = G.value();
+                    }
+                    if (!Gen::g_style_carry(fs, v, {})) break;
+                }
+                kind = "d"; f = hex(fs); a = hexn(bits_of(v), 16);
+                len = snprintf(b, sizeof b, fs.c_str(), v);
+            }
+            else
+            {
+                const IP &q = il[R.below(sizeof il / sizeof il[0])];
+                kind = "i"; f = hex(std::string(q.f)); a = q.a;
+                if (q.a[0] == 's') { bytes sb = unhex(std::string(q.a + 2)); std::string sv(sb.begin(), sb.end()); len = snprintf(b, sizeof b, q.f, sv.c_str()); }
+                else if (q.a[0] == 'l') len = snprintf(b, sizeof b, q.f, strtol(q.a + 2, 0, 10));
+                else len = snprintf(b, sizeof b, q.f, (int)strtol(q.a + 2, 0, 10));
+            }
+        };
+        for (long i = 0; i < pairs; i++)
+        {
+            unsigned sel = (unsigned)R.below(10);
+            bool af = sel < 7, bf = sel < 5 || sel >= 7 ? (sel != 9) : false; // ff 50 %, f-outer/int-inner 20 %, int-outer/f-inner 20 %, int/int 10 %
+            std::string ka, fa, aa, kb, fb, ab;
+            long la = 0, lb = 0;
+            piece(af, ka, fa, aa, la);
+            piece(bf, kb, fb, ab, lb);
+            std::vector<long> ks;
+            if (la <= 14) for (long k = 0; k <= la; k++) ks.push_back(k);
+            else { ks = {0, 1, la / 2, la - 1, la}; ks.push_back(R.range(2, la - 2)); }
+            for (long k : ks)
+                printf("pfn %s %ld %s %s %s %s %s %s\n", (cnt++ % 4 == 3) ? "th" : "cb", k, ka.c_str(), fa.c_str(), aa.c_str(), kb.c_str(), fb.c_str(), ab.c_str());
+        }
+    }
+    {
+        // long texts (>= 300 KB), the buffer constants +-1, the tie-canonicalisation bound 5000/5001
+        puts("pfd 3ff8000000000000 0 300000 20 0 0");
+        puts("pfd 3ff8000000000000 3000 2 30 0 0");
+        puts("pfd 3ee4f8b588e368f1 0 400000 20 1 0");
+        puts("pfd bff8000000000000 3100 3 21 0 1");
+        for (long P : {339L, 340L, 341L, 345L, 351L, 352L, 353L, 5000L, 5001L})
+            for (uint64_t b : {0x0000000000000001ull, 0x7fefffffffffffffull, 0x3fb999999999999aull, 0x3ff8000000000000ull})
+                for (int c = 0; c < 3; c++)
+                    printf("pfd %s 0 %ld %x %d %d\n", hexn(b, 16).c_str(), P, (unsigned)(0x20 | (R.chance(30) ? 8 : 0)), c == 1, c == 2);
+        // every flag word on the non-finite values (ISO: no zero padding for inf/nan, upper case for F E G)
+        static const uint64_t nf[] = {0x7ff0000000000000ull, 0xfff0000000000000ull, 0x7ff8000000000000ull, 0xfff8000000000000ull};
+        long q = 0;
+        for (uint64_t b : nf)
+            for (unsigned m = 0; m < 64; m++)
+                for (int c = 0; c < 3; c++)
+                    for (int up = 0; up < 2; up++)
+                        for (long wd : {0L, 12L})
+                        {
+                            if (!thorough && (q++ % 4)) continue;
+                            printf("pfd %s %ld %ld %x %d %d\n", hexn(b, 16).c_str(), wd, (long)R.below(8), m | (up ? 0x4000u : 0u), c == 1, c == 2);
+                        }
+        long N = thorough ? 4000 : 300;
+        static const long wds[] = {0, 1, 5, 20, 100, 1000};
+        static const long prs[] = {0, 1, 2, 5, 6, 10, 15, 16, 17, 18, 20, 30, 100, 339, 340, 341, 1000};
+        for (long i = 0; i < N; i++)
+        {
+            double v = G.value();
+            unsigned m = (unsigned)R.below(64) | (R.chance(50) ? 0x4000u : 0u);
+            int c = (int)R.below(3);
+            long wd = wds[R.below(6)], pr = prs[R.below(17)];
+            std::string f = "%";
+            if (m & 8) f += '#';
+            if (m & 32) f += "." + std::to_string(pr);
+            f += "feg"[c];
+            if (Gen::g_style_carry(f, v, {})) continue;
+            printf("pfd %s %ld %ld %x %d %d\n", hexn(bits_of(v), 16).c_str(), wd, pr, m, c == 1, c == 2);
+        }
+    }
+    // ---- round 3: the LONG_DOUBLE flavour (oracle only); values whose integer part fits the 352-byte buffer.
+    //      Beyond that the build loses the leading digits: finding C13-long-double-build-digits (probes)
+    puts("@F:C13-long-double-build-digits pfx 254c66 452f da763fc8cb9ff9e6");   // %Lf 1e400L
+    puts("@F:C13-long-double-build-digits pfx 252e334c66 7ffe d72cb2a95c7ef6cd"); // %.3Lf 1e4932L
+    {
+        long N = thorough ? 3000 : 200;
+        for (long i = 0; i < N; i++)
+        {
+            long double v = G.ldvalue();
+            if (std::isfinite(v) && v != 0 && (fabsl(v) > 1e300L || fabsl(v) < 1e-300L)) continue;
+            std::vector<long> star;
+            std::string f = G.directive(star, CONVS[R.below(6)], R.chance(60) ? 0 : (int)R.below(32), R.chance(60) ? 0 : (int)R.below(5), (int)R.range(-2, 25));
+            if (!star.empty()) continue;
+            if (f.size() >= 2 && f[f.size() - 2] == 'l') f.erase(f.size() - 2, 1);
+            if (Gen::g_style_carry(f, (double)v, {})) continue;
+            f.insert(f.size() - 1, "L");
+            unsigned char b[16] = {0};
+            memcpy(b, &v, 10);
+            uint64_t m;
+            memcpy(&m, b, 8);
+            unsigned se = b[8] | (b[9] << 8);
+            printf("pfx %s %s %s\n", hex(f).c_str(), hexn(se, 4).c_str(), hexn(m, 16).c_str());
+        }
+    }
     // ---- exhaustive small space: every flag subset x conversion x {no width, 12} x
     //      {no precision, .0, .1, .6} on the special values
     {
@@ -1067,6 +1658,11 @@ static void run(const std::vector<std::string> &w, const std::string &, out &o)
     else if (w[0] == "sh") run_sh(w, o, false);
     else if (w[0] == "shm") run_sh(w, o, true);
     else if (w[0] == "ar") run_ar(w, o);
+    else if (w[0] == "pfn") run_pfn(w, o);
+    else if (w[0] == "pm") run_pm(w, o);
+    else if (w[0] == "consts") run_consts(o);
+    else if (w[0] == "pfd") run_pfd(w, o);
+    else if (w[0] == "pfx") run_pfx(w, o);
     else { o.result = "bad-op"; o.fail("bad op"); }
 }
 
